@@ -315,8 +315,10 @@ def run_check(pid: str, tier: str, seed: int, only, scale: float) -> int:
         "wall_s": round(wall, 2),
         "violations": len(violations),
     }
-    (ROOT / "evidence").mkdir(exist_ok=True)
-    (ROOT / "evidence" / f"{pid}.json").write_text(json.dumps(ev, indent=1, default=core._json_default))
+    # runs against a scratch copy (mutants, seeded changes) or of a single sub-check never overwrite the evidence of /repo
+    evdir = ROOT / "evidence" if (os.environ.get("VERIF_REPO", "/repo") == "/repo" and not only) else ROOT / "evidence" / "scratch"
+    evdir.mkdir(parents=True, exist_ok=True)
+    (evdir / f"{pid}.json").write_text(json.dumps(ev, indent=1, default=core._json_default))
 
     # ---- report
     for e in known:
